@@ -12,6 +12,7 @@ import inspect
 from ..aid.sixing import *
 from ..aid import odict, oset
 from ..aid import aiding
+from .globaling import AUX, SLAVE
 from . import excepting
 from . import registering
 from . import storing
